@@ -42,7 +42,15 @@ fn cells(model: &Model) -> Vec<String> {
     for (i, ws) in model.workbook.worksheets.iter().enumerate() {
         for (r, cols) in ws.sheet_data.iter() {
             for (c, cell) in cols.iter() {
-                v.push(format!("{i}:{r}:{c}:{cell:?}"));
+                // the cached error MESSAGE (`m: "#N/A"`) is display text in the active language,
+                // not part of the value: dropped before comparing
+                let mut t = format!("{cell:?}");
+                while let Some(p) = t.find(", m: \"") {
+                    let rest = &t[p + 6..];
+                    let end = rest.find('"').map(|e| p + 6 + e + 1).unwrap_or(t.len());
+                    t.replace_range(p..end, "");
+                }
+                v.push(format!("{i}:{r}:{c}:{t}"));
             }
         }
     }
@@ -82,11 +90,28 @@ fn retype_all(m: &mut ironcalc_base::UserModel, out: &mut ImplOut, conf: &str) {
         if !single {
             continue;
         }
+        // a text that did not parse in the configuration it was typed in is kept verbatim as a
+        // parse-error formula (#ERROR!): it is not "a formula typed in one language" — not judged
+        let is_parse_error = m
+            .get_model()
+            .workbook
+            .worksheets
+            .get(s as usize)
+            .and_then(|ws| ws.sheet_data.get(&r))
+            .and_then(|row| row.get(&c))
+            .map(|cell| format!("{cell:?}").contains("ei: ERROR"))
+            .unwrap_or(true);
+        if is_parse_error {
+            continue;
+        }
         let before = stored_of_cell(m.get_model(), s, r, c);
         let shown = match m.get_model().get_localized_cell_content(s, r, c) {
             Ok(t) => t,
             Err(_) => continue,
         };
+        if std::env::var("VERIF_DEBUG").is_ok() {
+            eprintln!("retype {conf} {s}!{r},{c}: shown `{shown}` stored {before:?} formula {:?}", m.get_model().get_cell_formula(s, r, c));
+        }
         if m.set_user_input(s, r, c, &shown).is_err() {
             *out = std::mem::replace(out, ImplOut::new(String::new())).fail("c10:retype:rejected", &format!("{conf}: `{shown}` shown in {s}!{r},{c} is rejected when typed back"));
             return;
@@ -119,7 +144,18 @@ fn eval(req: &str) -> ImplOut {
             if matches!(op, Op::InsertRows { .. } | Op::DeleteRows { .. } | Op::InsertCols { .. } | Op::DeleteCols { .. }) {
                 continue;
             }
+            // number-like text is classified by the locale active when it is typed, and a text
+            // that looks like a number is coerced with the locale active at evaluation time: such
+            // inputs make values legitimately locale dependent (implicit VALUE) — not generated here
+            if let Op::Input { text, .. } = &op {
+                if !text.starts_with('=') && text.chars().any(|c| c.is_ascii_digit()) && text.chars().any(|c| ".,/$%-eE€ ".contains(c)) {
+                    continue;
+                }
+            }
             let is_switch = matches!(op, Op::Language(_) | Op::Locale(_));
+            if std::env::var("VERIF_DEBUG").is_ok() {
+                eprintln!("op {op:?}  [lang={} locale={}]", m.get_language(), m.get_locale());
+            }
             if is_switch {
                 m.evaluate();
                 let s0 = stored(m.get_model());
